@@ -195,6 +195,10 @@ def finalize_cfg(name, cfg, db):
         cfg = dict(cfg)
         from schemes.CGKO06.SSE2.config import scan_database_and_update_config_dict
         scan_database_and_update_config_dict(cfg, db)
+        # param_n is an upper bound on the number of files, not necessarily the exact count: every third database gets
+        # some slack (a scheme that "corrects" the caller's bound - in the caller's dictionary - shows only then)
+        total = sum(len(v) for v in db.values())
+        cfg["param_n"] += (0, 0, 3)[total % 3]
     return cfg
 
 
